@@ -720,5 +720,99 @@ Section LIFT.
       exists pk, vh2, pv2, stt. split; [exact Hl2|]. cbn [app]. unfold flatten_s. rewrite flatten_keys. left.
       unfold RLs, Rs in Hin. cbn [reach] in Hin. rewrite <- app_assoc in Hin. exact Hin.
   Qed.
+
+    (* ---------- every history of commits, replayed on the explicit store ---------- *)
+    Fixpoint run_db_store (st : tree_state) (ts : tstore) (us : list db_updates) : res (tree_state * tstore) :=
+      match us with
+      | [] => Ok (st, ts)
+      | u :: r =>
+        match put_at_next_version H fuel st u with
+        | Ok (_, st', ops) =>
+          match apply_ops ts ops with
+          | Ok ts' => run_db_store st' ts' r
+          | Panic => Panic | OutOfFuel => OutOfFuel
+          end
+        | Panic => Panic | OutOfFuel => OutOfFuel
+        end
+      end.
+
+    (* C18_current_tree_intact + C18_stale_dead_forever: D = any set of keys that are already dead *)
+    Theorem db_history : forall us st d ts (D : skey -> Prop),
+      (forall x, H x <> ZERO_HASH) ->
+      db_rel H fuel US UP UE st d -> Forall (ok_commit fuel US UP UE) us ->
+      vers_le (ver_of st) (reach_db st) ->
+      (forall k, In k (reach_db st) -> st_get k (ts_nodes ts) <> None) ->
+      (forall k, D k -> fst k <= ver_of st /\ ~ In k (reach_db st)) ->
+      exists stf tsf, run_db_store st ts us = Ok (stf, tsf) /\
+        db_rel H fuel US UP UE stf (apply_commits d us) /\
+        vers_le (ver_of stf) (reach_db stf) /\
+        (forall k, In k (reach_db stf) -> st_get k (ts_nodes tsf) <> None) /\
+        (forall k, D k -> fst k <= ver_of stf /\ ~ In k (reach_db stf)).
+    Proof.
+      induction us as [|u r IH]; intros st d ts D HZ DR OK VR Stored Dead.
+      - exists st, ts. split; [reflexivity|]. split; [exact DR|]. split; [exact VR|]. split; [exact Stored|exact Dead].
+      - inversion OK as [|? ? OKu OKr]; subst.
+        destruct (commit_facts st d u HZ DR OKu VR) as (root & st' & ops & E & DR' & Ev & F).
+        destruct (apply_ops_total ops ts) as (ts' & Ea & _).
+        assert (InsV : forall k, In k (ins_keys ops) -> fst k = ver_of st + 1).
+        { intros [v p] Hk. apply ins_keys_in in Hk. destruct Hk as [n Hn]. apply (sf_ops _ _ _ _ _ F) in Hn. cbn in Hn. apply Hn. }
+        assert (VR' : vers_le (ver_of st') (reach_db st')).
+        { intros k Hk. rewrite Ev. destruct (sf_reach _ _ _ _ _ F k Hk) as [Hi|[Ho _]]; [rewrite (InsV k Hi); lia|specialize (VR k Ho); lia]. }
+        destruct (IH st' (apply_commit d u) ts'
+                    (fun k => D k \/ (In k (reach_db st) /\ exists op, In op ops /\ kills op k)) HZ DR' OKr VR')
+          as (stf & tsf & Er & DRf & VRf & Sf & Df).
+        + intros k Hk. apply (facts_intact [] (ver_of st + 1) ops (reach_db st) (reach_db st') ts ts' F Ea Stored k Hk).
+        + intros k Hd. assert (Lk : fst k <= ver_of st).
+          { destruct Hd as [Hd|[Hd _]]; [apply (Dead k Hd)|apply (VR k Hd)]. }
+          split; [rewrite Ev; lia|]. intro Hn. destruct (sf_reach _ _ _ _ _ F k Hn) as [Hi|[Ho NK]].
+          * pose proof (InsV k Hi). lia.
+          * destruct Hd as [Hd|[_ (op & Hop & Kop)]]; [apply (proj2 (Dead k Hd) Ho)|apply (NK op Hop Kop)].
+        + exists stf, tsf. cbn [run_db_store apply_commits fold_left]. rewrite E, Ea. split; [exact Er|]. split; [exact DRf|].
+          split; [exact VRf|]. split; [exact Sf|]. intros k Hd. apply Df. left. exact Hd.
+    Qed.
+
+    Lemma run_db_store_state : forall us st ts ts' stf tsf, run_db_store st ts us = Ok (stf, tsf) ->
+      exists tsf', run_db_store st ts' us = Ok (stf, tsf').
+    Proof.
+      induction us as [|u r IH]; intros st ts ts' stf tsf E; cbn [run_db_store] in *.
+      - inversion E; subst. exists ts'. reflexivity.
+      - destruct (put_at_next_version H fuel st u) as [[[root st1] ops]| |]; try discriminate.
+        destruct (apply_ops ts ops) as [t1| |]; try discriminate.
+        destruct (apply_ops_total ops ts') as (t1' & Ea & _). rewrite Ea. apply (IH st1 t1 t1' stf tsf E).
+    Qed.
+
+    Lemma st_get_synthetic : forall (l : list skey) k, In k l -> st_get k (map (fun k0 => (k0, SNull)) l) <> None.
+    Proof.
+      induction l as [|x l IH]; intros k Hin; [destruct Hin|]. cbn [map st_get].
+      destruct (skey_eqb k x) eqn:E; [discriminate|]. destruct Hin as [Ex|Hin]; [subst; rewrite skey_eqb_refl in E; discriminate|apply IH; exact Hin].
+    Qed.
+
+    (* a part reported stale by a commit (a node, or any node of the old tree below a stale subtree)
+       is unreachable from the root of that commit and from every later root *)
+    Corollary db_stale_dead_forever : forall st d u root st1 ops us2 ts1 stf tsf,
+      (forall x, H x <> ZERO_HASH) ->
+      db_rel H fuel US UP UE st d -> ok_commit fuel US UP UE u -> Forall (ok_commit fuel US UP UE) us2 ->
+      vers_le (ver_of st) (reach_db st) ->
+      put_at_next_version H fuel st u = Ok (root, st1, ops) ->
+      run_db_store st1 ts1 us2 = Ok (stf, tsf) ->
+      forall k op, In k (reach_db st) -> In op ops -> kills op k -> ~ In k (reach_db stf).
+    Proof.
+      intros st d u root st1 ops us2 ts1 stf tsf HZ DR OKu OK2 VR E Erun.
+      destruct (commit_facts st d u HZ DR OKu VR) as (root' & st' & ops' & E' & DR' & Ev & F).
+      rewrite E in E'. inversion E'; subst root' st' ops'. clear E'.
+      assert (InsV : forall k, In k (ins_keys ops) -> fst k = ver_of st + 1).
+      { intros [v p] Hk. apply ins_keys_in in Hk. destruct Hk as [n Hn]. apply (sf_ops _ _ _ _ _ F) in Hn. cbn in Hn. apply Hn. }
+      assert (VR' : vers_le (ver_of st1) (reach_db st1)).
+      { intros k Hk. rewrite Ev. destruct (sf_reach _ _ _ _ _ F k Hk) as [Hi|[Ho _]]; [rewrite (InsV k Hi); lia|specialize (VR k Ho); lia]. }
+      set (ts0 := mkTStore (map (fun k0 : skey => (k0, SNull)) (reach_db st1)) [] true).
+      destruct (run_db_store_state us2 st1 ts1 ts0 stf tsf Erun) as [tsf0 Erun0].
+      destruct (db_history us2 st1 (apply_commit d u) ts0
+                  (fun k => In k (reach_db st) /\ exists op, In op ops /\ kills op k) HZ DR' OK2 VR') as (stf' & tsf' & Er & _ & _ & _ & Df).
+      - intros k Hk. cbn [ts0 ts_nodes]. apply st_get_synthetic. exact Hk.
+      - intros k [Hk (op & Hop & Kop)]. split; [rewrite Ev; specialize (VR k Hk); lia|].
+        intro Hn. destruct (sf_reach _ _ _ _ _ F k Hn) as [Hi|[Ho NK]]; [pose proof (InsV k Hi); specialize (VR k Hk); lia|apply (NK op Hop Kop)].
+      - rewrite Erun0 in Er. inversion Er; subst stf' tsf'.
+        intros k op Hk Hop Kop. apply (Df k). split; [exact Hk|]. exists op. split; assumption.
+    Qed.
   End DB3.
 End LIFT.
